@@ -25,7 +25,7 @@ func hostileString(r *rand.Rand, maxAtoms int, allowNL bool) string {
 		}
 		b.WriteString(hostileAtoms[r.Intn(len(hostileAtoms))])
 	}
-	return b.String()
+	return noAnsiConst(b.String())
 }
 
 func stripOneEOL(s string) string {
